@@ -844,8 +844,13 @@ found:
 		for i, c := range x.line {
 			if escape {
 				// Continuation line - remove \ then continue
+				// (a raw string keeps both characters)
 				if c == '\n' {
-					buf.Truncate(buf.Len() - 1)
+					if rawString {
+						_, _ = buf.WriteRune(c)
+					} else {
+						buf.Truncate(buf.Len() - 1)
+					}
 					goto readMore
 				}
 				_, _ = buf.WriteRune(c)
